@@ -224,6 +224,23 @@ class Env:
         builtins.open = fake
         self.undo.append(lambda: setattr(builtins, "open", real_open))
 
+    def regex_timeout_failpoint(self):
+        """The regular-expression engine gives up (its time budget is exhausted) the moment the matcher is applied."""
+        from jasm import consumer as co
+        rx = co.regex
+
+        class Giving_up:
+            def __getattr__(self, name):
+                return getattr(rx, name)
+
+            def search(self, *a, **k):
+                raise TimeoutError("regex timed out (injected)")
+
+            def finditer(self, *a, **k):
+                raise TimeoutError("regex timed out (injected)")
+        co.regex = Giving_up()
+        self.undo.append(lambda: setattr(co, "regex", rx))
+
     def run_failpoint(self, exc):
         real_run = subprocess.run
 
@@ -351,7 +368,7 @@ def all_jobs(ws, B):
         for name, fn in TEXT_FAULTS:
             jobs.append((name, bi, "text", fn))
         for name in ("rule-file-missing", "rule-is-directory", "input-file-missing", "input-is-directory",
-                     "open-failpoint-rule-EACCES", "open-failpoint-rule-EIO"):
+                     "open-failpoint-rule-EACCES", "open-failpoint-rule-EIO", "regex-timeout-failpoint"):
             jobs.append((name, bi, "file", None))
         if not b["binary"]:
             for name in ("input-not-utf8", "open-failpoint-input-EACCES", "open-failpoint-input-EIO"):
@@ -425,6 +442,8 @@ def run_job(ctx, ws, B, job, with_cli):
             d = fake_objdump(ws, fault, script)
             envfn = lambda env: env.path(d + os.pathsep + "/usr/bin:/bin")  # noqa: E731
             env_path = d + os.pathsep + "/usr/bin:/bin"
+        elif fault == "regex-timeout-failpoint":
+            envfn = lambda env: env.regex_timeout_failpoint()  # noqa: E731
         elif fault == "subprocess-run-OSError":
             envfn = lambda env: env.run_failpoint(OSError(errno.ENOMEM, "Cannot allocate memory (injected)"))  # noqa: E731
         elif fault == "macro-file-missing":
@@ -436,7 +455,7 @@ def run_job(ctx, ws, B, job, with_cli):
     # the open finding is "no macro defined ANYWHERE": with an extra macro file in play the expander runs and must report the name
     key = "undefined_macro_without_definitions" if fault == "undefined-macro-no-definitions" and not macros else None
     judge_api(ctx, ws, fault, base, rule_path, inp, macros, envfn, key)
-    cli_ok = with_cli and not fault.startswith("open-failpoint") and fault != "subprocess-run-OSError"
+    cli_ok = with_cli and not fault.startswith("open-failpoint") and fault not in ("subprocess-run-OSError", "regex-timeout-failpoint")
     if cli_ok:
         judge_cli(ctx, ws, fault, base, rule_path, inp, macros, env_path, key)
 
